@@ -502,6 +502,9 @@ def check_key_notation(ctx):
 
 
 def run(ctx):
+    from ..lints import check_caches
+
+    check_caches(ctx, "C17-D2 pure-operations", ['distributions._measurement_outcome_distribution', 'distributions.mmd', 'distributions.clipped_negative_log_likelihood', 'distributions.jensen_shannon_divergence'])
     check_constructor(ctx)
     check_purity(ctx)
     check_symmetry(ctx)
